@@ -183,7 +183,7 @@ func stageMain(argv []string) {
 	if !ok {
 		stageDie("unknown stage " + name)
 	}
-	logEvent("start %s %s %s", id, name, phase)
+	logEvent("start %s %s %s %s", id, name, phase, md)
 	args := stripInternal(readJV(filepath.Join(md, "_args")))
 	var result string
 	outFile := "_outs"
